@@ -4,7 +4,7 @@ import random
 import re
 
 from harness import build, common, e2e, picture, shaper
-from harness.common import Report, proof_gate, report_failure
+from harness.common import Report, listlit, proof_gate, report_failure
 
 ALL_FORMATS = ["glyf", "glyf_colr_0", "glyf_colr_1", "cff_colr_0", "cff_colr_1", "cff2_colr_0", "cff2_colr_1",
                "picosvg", "picosvgz", "untouchedsvg", "untouchedsvgz", "cbdt", "sbix"]
@@ -86,6 +86,15 @@ def cli_fea_problems(file_names, seqs):
 
 
 def run_e2e(report, n_fonts, rng, formats):
+    shape_cases, shape_meta = [], []
+    try:
+        _run_e2e(report, n_fonts, rng, formats, shape_cases, shape_meta)
+    finally:
+        if shape_cases and common.vo_ok("Corr/C04.v") and not report.violations:
+            common.evaluate_corr(report, ["Model.Shaping Corr.Common Corr.C04"], "Corr.C04", "shape", "shape_case", shape_cases, shape_meta, "shape_agree", "shape_prop", shard=80)
+
+
+def _run_e2e(report, n_fonts, rng, formats, shape_cases, shape_meta):
     for i in range(n_fonts):
         fmt = formats[i % len(formats)]
         bitmap = fmt in ("cbdt", "sbix")
@@ -141,6 +150,15 @@ def run_e2e(report, n_fonts, rng, formats):
         if sp is None or picture.polylines_from_glyph(font.getGlyphSet(), sp):
             probs.append("U+0020 does not map to a blank glyph")
         reached = {}
+        if len(shape_cases) < 400:
+            for s in seqs:
+                shape_cases.append(shape_case_lit(font, seqs, s))
+                shape_meta.append(dict(function="cmap + GSUB of the built font (reference shaper)", format=fmt, sequences=[list(x) for x in seqs], text=list(s)))
+                if len(s) > 2:
+                    shape_cases.append(shape_case_lit(font, seqs, s[:-1]))
+                    shape_meta.append(dict(function="cmap + GSUB of the built font (reference shaper)", format=fmt, sequences=[list(x) for x in seqs], text=list(s[:-1])))
+            shape_cases.append(shape_case_lit(font, seqs, tuple(seqs[0]) + tuple(seqs[-1])))
+            shape_meta.append(dict(function="cmap + GSUB of the built font (reference shaper)", format=fmt, sequences=[list(x) for x in seqs], text=list(tuple(seqs[0]) + tuple(seqs[-1]))))
         for k, s in enumerate(seqs):
             out = shaper.shape(font, s)
             report.count(("seq", fmt, s, tuple(seqs)), len(s) > 1)
@@ -243,6 +261,97 @@ def run_fea(report, n, rng):
                     return
 
 
+def _seqlit(s):
+    return listlit([f"{c}%N" for c in s])
+
+
+def run_model_corr(report, n, rng):
+    """features.generate_fea and write_font._ensure_codepoints_will_have_glyphs against Model.Shaping, with glyph names
+    mapped back to the sequences they were made from"""
+    from nanoemoji import write_font
+    from nanoemoji.features import generate_fea
+    from nanoemoji.glyph import glyph_name
+
+    class _Glyph:
+        def __init__(self, name):
+            self.name, self.unicode = name, None
+
+    class _Ufo:
+        def __init__(self):
+            self.glyphs, self.glyphOrder = [], [".notdef", ".space"]
+
+        def newGlyph(self, name):
+            g = _Glyph(name)
+            self.glyphs.append(g)
+            return g
+
+    class _Input:
+        def __init__(self, cps):
+            self.codepoints = cps
+
+    fcases, fmeta, bcases, bmeta = [], [], [], []
+    for i in range(n):
+        seqs = gen_sequences(rng)
+        back = {}
+        for s in seqs:
+            back.setdefault(glyph_name(s), tuple(s))
+            for c in s:
+                back.setdefault(glyph_name((c,)), (c,))
+        fea = generate_fea(seqs)
+        got = re.findall(r"^\s*sub (.+) by (\S+);$", fea, re.M)
+        try:
+            rules = [([back[a] for a in comps.split()], back[tgt]) for comps, tgt in got]
+        except KeyError as ex:
+            report_failure(report, f"fea_names_{i}", dict(kind="property", function="features.generate_fea", sequences=seqs, problem=f"the feature file names a glyph no sequence or codepoint of the set has: {ex}"))
+            return
+        fcases.append("(" + listlit([_seqlit(s) for s in seqs]) + ", " + listlit(["(" + listlit([_seqlit(c) for c in comps]) + ", " + _seqlit(t) + ")" for comps, t in rules]) + ")")
+        fmeta.append(dict(function="features.generate_fea", sequences=[list(s) for s in seqs], rules=[[list(map(list, c)), list(t)] for c, t in rules]))
+        ufo = _Ufo()
+        write_font._ensure_codepoints_will_have_glyphs(ufo, [_Input(tuple(s)) for s in seqs])
+        wrong = [(g.name, g.unicode) for g in ufo.glyphs if g.name != glyph_name((g.unicode,))]
+        if wrong or sorted(ufo.glyphOrder[2:]) != sorted(g.name for g in ufo.glyphs):
+            report_failure(report, f"blanks_pairing_{i}", dict(kind="property", function="write_font._ensure_codepoints_will_have_glyphs", sequences=seqs,
+                                                              problem=f"blank glyphs whose name is not the name of their codepoint: {wrong[:4]}; glyph order {ufo.glyphOrder}"))
+            return
+        bcases.append("(" + listlit([_seqlit(s) for s in seqs]) + ", " + listlit([f"{g.unicode}%N" for g in ufo.glyphs]) + ")")
+        bmeta.append(dict(function="write_font._ensure_codepoints_will_have_glyphs", sequences=[list(s) for s in seqs], blanks=[g.unicode for g in ufo.glyphs]))
+        report.count(("c04-model", tuple(seqs)), any(len(s) > 1 for s in seqs))
+    common.evaluate_corr(report, ["Model.Shaping Corr.Common Corr.C04"], "Corr.C04", "generate_fea", "fea_case", fcases, fmeta, "fea_agree", "fea_agree", shard=100)
+    common.evaluate_corr(report, ["Model.Shaping Corr.Common Corr.C04"], "Corr.C04", "blank_glyphs", "blank_case", bcases, bmeta, "blank_agree", "blank_agree", shard=100)
+
+
+def shape_case_lit(font, seqs, text):
+    """(font's sequences, text, what the font's cmap + GSUB make of it) as a Corr.C04.shape_case; glyphs of the
+    binary are identified without their names: single-codepoint glyphs by cmap, ligature glyphs by the rule
+    (first glyph + components) that produces them"""
+    cmap = font.getBestCmap()
+    rev = {}
+    for c, g in cmap.items():
+        rev.setdefault(g, c)
+    lig = {}
+    for ligs in shaper.ligature_lookups(font):
+        for first, ls in ligs.items():
+            for l_ in ls:
+                comps = [first] + list(l_.Component)
+                if all(g in rev for g in comps):
+                    lig.setdefault(l_.LigGlyph, tuple(rev[g] for g in comps))
+    out = shaper.shape(font, text)
+    obs = "None"
+    if out is not None:
+        gl = []
+        for g in out:
+            if g in lig:
+                gl.append(lig[g])
+            elif g in rev:
+                gl.append((rev[g],))
+            else:
+                gl = None
+                break
+        if gl is not None:
+            obs = "(Some " + listlit([_seqlit(g) for g in gl]) + ")"
+    return "(" + listlit([_seqlit(s) for s in seqs]) + ", " + _seqlit(text) + ", " + obs + ")"
+
+
 def main(argv):
     common.setup_env()
     tier = common.tier_from_args(argv)
@@ -257,6 +366,8 @@ def main(argv):
     st = proof_gate(report)
     rng = random.Random(report.seed)
     run_fea(report, 100 if tier == "quick" else 2000, rng)
+    if common.vo_ok("Corr/C04.v"):
+        run_model_corr(report, 80 if tier == "quick" else 1500, random.Random(rng.getrandbits(48)))
     run_e2e(report, 26 if tier == "quick" else 520, rng, ALL_FORMATS)
     run_f3_witness(report)
     if not st["proof_ok"] and not report.violations:
